@@ -137,7 +137,7 @@ Proof. exact code_direct_correct. Qed.
 Print Assumptions C06_code_direct.
 
 Theorem C06_code_density :
-  (forall g, eval KQ g (conv tr_density_returned) = eval KQ g (drho KQ ord0)) /\
-  (forall g, eval KQ g (conv tr_density_tested) = eval KQ g (conv tr_density_returned)).
+  (forall g, symg g -> eval KQ g (conv tr_density_returned) = eval KQ g (drho KQ ord0)) /\
+  (forall g, symg g -> eval KQ g (conv tr_density_tested) = eval KQ g (conv tr_density_returned)).
 Proof. exact code_density_correct. Qed.
 Print Assumptions C06_code_density.
